@@ -20,9 +20,10 @@ WrongCoinEmission == 206
 IsNotOwnerOfCoin == 206
 CoinNotMintable == 801
 CoinNotBurnable == 802
-\* maxSupply: the largest admissible maximum supply (10^15 coins in the node; a model states a small one)
+WrongCrr == 202
+\* lim: the registry's limits [lim.maxSupply (10^15 coins in the node), minSupply (1 coin), minReserve (10 000 base coins)]; a model states small ones
 
-CoinTypes == {"CreateToken", "RecreateToken", "EditCoinOwner", "MintToken", "BurnToken"}
+CoinTypes == {"CreateToken", "RecreateToken", "EditCoinOwner", "MintToken", "BurnToken", "CreateCoin", "RecreateCoin"}
 CoinsSupported(s, tx) == tx.type \in CoinTypes /\ tx.gasCoin = Base /\ s.priceCoin = Base
 
 ActiveOf(s, sym) == {c \in DOMAIN s.coins : s.coins[c].sym = sym /\ s.coins[c].ver = 0}
@@ -31,6 +32,8 @@ TickerPrice(s, n) == CASE n = 3 -> PT(s).CreateTicker3 [] n = 4 -> PT(s).CreateT
                        [] n = 6 -> PT(s).CreateTicker6 [] OTHER -> PT(s).CreateTicker7to10
 TokenPrice(s, tx) ==
    tx.gasPrice ** ((CASE tx.type = "CreateToken" -> PT(s).CreateToken ++ TickerPrice(s, tx.args.symbolLen)
+                      [] tx.type = "CreateCoin" -> PT(s).CreateCoin ++ TickerPrice(s, tx.args.symbolLen)
+                      [] tx.type = "RecreateCoin" -> PT(s).RecreateCoin
                       [] tx.type = "RecreateToken" -> PT(s).RecreateToken
                       [] tx.type = "EditCoinOwner" -> PT(s).EditTickerOwner
                       [] tx.type = "MintToken" -> PT(s).MintToken
@@ -39,9 +42,9 @@ PaidT(s, tx) == LET fee == TokenPrice(s, tx) IN SetNonce(AddPool(SubBal(s, tx.se
 ResT(code, s, tx) == Res(code, s, TokenPrice(s, tx))
 ShortT(s, tx) == Bal(s, tx.sender, Base) \prec TokenPrice(s, tx)
 
-SupplyBad(a, maxSupply) == \/ (~a.mintable /\ a.amount # a.max)
+SupplyBad(a, lim) == \/ (~a.mintable /\ a.amount # a.max)
                       \/ a.amount \prec One \/ a.max \prec a.amount
-                      \/ maxSupply \prec a.max
+                      \/ lim.maxSupply \prec a.max
 NewToken(tx, sym, owner) == [sym |-> sym, ver |-> 0, kind |-> "token", vol |-> tx.args.amount, res |-> Zero, crr |-> 0, max |-> tx.args.max,
                              owner |-> owner, mint |-> tx.args.mintable, burn |-> tx.args.burnable]
 AddCoin(s, tx, sym, owner) ==
@@ -49,23 +52,48 @@ AddCoin(s, tx, sym, owner) ==
    IN AddBal([s EXCEPT !.coins = (id :> NewToken(tx, sym, owner)) @@ @, !.nextCoin = @ + 1], tx.sender, id, tx.args.amount)
 
 \* the price of the ticker is burned: it leaves the reward pool for the zero address
-RunCreateToken(s, tx, maxSupply) ==
+RunCreateToken(s, tx, lim) ==
    LET a == tx.args  burnt == tx.gasPrice ** TickerPrice(s, a.symbolLen)
    IN IF ActiveOf(s, a.symbol) # {} THEN FailWith(CoinAlreadyExists, s, tx, tx.sender)
-      ELSE IF SupplyBad(a, maxSupply) THEN FailWith(WrongCoinSupply, s, tx, tx.sender)
+      ELSE IF SupplyBad(a, lim) THEN FailWith(WrongCoinSupply, s, tx, tx.sender)
       ELSE IF ShortT(s, tx) THEN FailWith(InsufficientFunds, s, tx, tx.sender)
       ELSE LET s1 == AddCoin(PaidT(s, tx), tx, a.symbol, tx.sender)
            IN ResT(OK, AddBal([s1 EXCEPT !.rewardPool = @ -- burnt], "zero", Base, burnt), tx)
+\* a coin with a reserve: the reserve is taken from the creator together with the commission; the ticker's price is burned
+NewCoin(tx, owner) == [sym |-> tx.args.symbol, ver |-> 0, kind |-> "bancor", vol |-> tx.args.amount, res |-> tx.args.reserve, crr |-> tx.args.crr,
+                       max |-> tx.args.max, owner |-> owner, mint |-> FALSE, burn |-> FALSE]
+AddReserveCoin(s, tx) ==
+   LET id == ToString(s.nextCoin)
+   IN AddBal(SubBal([s EXCEPT !.coins = (id :> NewCoin(tx, tx.sender)) @@ @, !.nextCoin = @ + 1], tx.sender, Base, tx.args.reserve), tx.sender, id, tx.args.amount)
+CoinShort(s, tx) == Bal(s, tx.sender, Base) \prec (tx.args.reserve ++ TokenPrice(s, tx))
+RunCreateCoin(s, tx, lim) ==
+   LET a == tx.args  burnt == tx.gasPrice ** TickerPrice(s, a.symbolLen)
+   IN IF ActiveOf(s, a.symbol) # {} THEN FailWith(CoinAlreadyExists, s, tx, tx.sender)
+      ELSE IF lim.maxSupply \prec a.max \/ a.amount \prec lim.minSupply \/ a.max \prec a.amount \/ a.reserve \prec lim.minReserve THEN FailWith(WrongCoinSupply, s, tx, tx.sender)
+      ELSE IF a.crr < 10 \/ a.crr > 100 THEN FailWith(WrongCrr, s, tx, tx.sender)
+      ELSE IF CoinShort(s, tx) THEN FailWith(InsufficientFunds, s, tx, tx.sender)
+      ELSE LET s1 == AddReserveCoin(PaidT(s, tx), tx)
+           IN ResT(OK, AddBal([s1 EXCEPT !.rewardPool = @ -- burnt], "zero", Base, burnt), tx)
 MaxVer(s, sym) == LET vs == {s.coins[c].ver : c \in {x \in DOMAIN s.coins : s.coins[x].sym = sym}} IN CHOOSE v \in vs : \A w \in vs : w <= v
-RunRecreateToken(s, tx, maxSupply) ==
+RunRecreateToken(s, tx, lim) ==
    LET a == tx.args
-   IN IF SupplyBad(a, maxSupply) THEN FailWith(WrongCoinSupply, s, tx, tx.sender)
+   IN IF SupplyBad(a, lim) THEN FailWith(WrongCoinSupply, s, tx, tx.sender)
       ELSE IF ActiveOf(s, a.symbol) = {} THEN FailWith(CoinNotExists, s, tx, tx.sender)
       ELSE IF s.coins[TheActive(s, a.symbol)].owner # tx.sender THEN FailWith(IsNotOwnerOfCoin, s, tx, tx.sender)
       ELSE IF ShortT(s, tx) THEN FailWith(InsufficientFunds, s, tx, tx.sender)
       ELSE LET old == TheActive(s, a.symbol)
                s1 == [PaidT(s, tx) EXCEPT !.coins[old].ver = MaxVer(s, a.symbol) + 1, !.coins[old].owner = ""]
            IN ResT(OK, AddCoin(s1, tx, a.symbol, tx.sender), tx)
+RunRecreateCoin(s, tx, lim) ==
+   LET a == tx.args
+   IN IF a.amount \prec lim.minSupply \/ a.max \prec a.amount \/ lim.maxSupply \prec a.max \/ a.reserve \prec lim.minReserve THEN FailWith(WrongCoinSupply, s, tx, tx.sender)
+      ELSE IF a.crr < 10 \/ a.crr > 100 THEN FailWith(WrongCrr, s, tx, tx.sender)
+      ELSE IF ActiveOf(s, a.symbol) = {} THEN FailWith(CoinNotExists, s, tx, tx.sender)
+      ELSE IF s.coins[TheActive(s, a.symbol)].owner # tx.sender THEN FailWith(IsNotOwnerOfCoin, s, tx, tx.sender)
+      ELSE IF CoinShort(s, tx) THEN FailWith(InsufficientFunds, s, tx, tx.sender)
+      ELSE LET old == TheActive(s, a.symbol)
+               s1 == [PaidT(s, tx) EXCEPT !.coins[old].ver = MaxVer(s, a.symbol) + 1, !.coins[old].owner = ""]
+           IN ResT(OK, AddReserveCoin(s1, tx), tx)
 RunEditCoinOwner(s, tx) ==
    LET a == tx.args
    IN IF ActiveOf(s, a.symbol) = {} THEN FailWith(CoinNotExists, s, tx, tx.sender)
@@ -89,16 +117,18 @@ RunBurnToken(s, tx) ==
       ELSE ResT(OK, SubBal([PaidT(s, tx) EXCEPT !.coins[c].vol = @ -- a.value], tx.sender, c, a.value), tx)
 
 \* the executor for the three families
-RunTxC(s, tx, h, cfg, maxSupply) ==
+RunTxC(s, tx, h, cfg, lim) ==
    IF tx.type \notin CoinTypes THEN RunTxS(s, tx, h, cfg)
    ELSE IF ~tx.intact \/ Malleated(tx) THEN Reject(DecodeError, s)
    ELSE IF tx.chain # cfg.chain THEN Reject(WrongChainID, s)
    ELSE IF ~CoinExists(s, tx.gasCoin) THEN Reject(CoinNotExists, s)
    ELSE IF tx.multi /\ MultisigCode(s, tx) # OK THEN Reject(MultisigCode(s, tx), s)
    ELSE IF tx.nonce # NonceOf(s, tx.sender) + 1 THEN Reject(WrongNonce, s)
-   ELSE CASE tx.type = "CreateToken" -> RunCreateToken(s, tx, maxSupply)
-          [] tx.type = "RecreateToken" -> RunRecreateToken(s, tx, maxSupply)
+   ELSE CASE tx.type = "CreateToken" -> RunCreateToken(s, tx, lim)
+          [] tx.type = "RecreateToken" -> RunRecreateToken(s, tx, lim)
           [] tx.type = "EditCoinOwner" -> RunEditCoinOwner(s, tx)
           [] tx.type = "MintToken" -> RunMintToken(s, tx)
           [] tx.type = "BurnToken" -> RunBurnToken(s, tx)
+          [] tx.type = "CreateCoin" -> RunCreateCoin(s, tx, lim)
+          [] tx.type = "RecreateCoin" -> RunRecreateCoin(s, tx, lim)
 =============================================================================
